@@ -13,7 +13,8 @@
    back ([too_deep], [C17_too_deep_witness]); the read-back theorems exclude exactly that class. *)
 From LV Require Import Base.Bytes Model.Obj Model.DocQ Model.PageTree Model.Outline Model.Toc Gen.QueryC
   Spec.OutlineSpec Proofs.OutlineProofs Proofs.OutlineProofsTitle Proofs.OutlineProofsRead
-  Proofs.OutlineProofsOps Proofs.OutlineProofsMain Proofs.OutlineProofsReload Proofs.OutlineProofsProps.
+  Proofs.OutlineProofsOps Proofs.OutlineProofsMain Proofs.OutlineProofsReload Proofs.OutlineProofsAdjust
+  Proofs.OutlineProofsForest Proofs.OutlineProofsFull Proofs.OutlineProofsProps.
 
 Local Open Scope N_scope.
 
@@ -132,7 +133,7 @@ Proof.
   apply N.ltb_ge. exact H9.
 Qed.
 
-(* (4') the same over any table that holds a forest (e.g. after adjust_zero_pages changed the pages) *)
+(* (4') the same over any table that holds a forest *)
 Theorem C17_reads_back_forest :
   forall b f cid rid cat fuel fuel2,
     bookmarks b = map iid f -> f <> [] ->
@@ -215,13 +216,64 @@ Theorem C17_too_deep_witness :
   get_toc 1000 deep_final = TErr.
 Proof. exact deep_witness. Qed.
 
-(* zero-page parents.  PARTIAL: the general statement "adjust_zero_pages turns a table holding f into
-   a table holding map fix_tree f" (Spec/OutlineSpec.v: a parent with object number 0 and children
-   takes the page of its first child that has one, after the same adjustment) is not proved; it is
-   checked on every generated case by the harness against an independent eff_page oracle.  What is
-   proved: (4') above holds for ANY table holding a forest, so also for the adjusted one; and on
-   the concrete forest A(0,0)[B(0,0)[b], C], D(0,7)[E] the model computes exactly [fix_tree] and the
-   adjusted forest reads back with the fixed-up page numbers. *)
+(* (6) Zero-page parents.  The denoted forest really is a forest (every bookmark id at most once) of
+   height at most the number of calls; on any table holding a forest with distinct ids
+   adjust_zero_pages leaves a table holding [map fix_tree f] (Spec/OutlineSpec.v: a parent with
+   object number 0 and children takes the page of its first child that has one, after the same
+   adjustment; everything else unchanged), never panics, and fuel > height suffices. *)
+Theorem C17_forest_ids_distinct :
+  forall ops : list sop, NoDup (flat_map iids (forest_of_ops ops)).
+Proof. exact forest_ids_nodup. Qed.
+
+Theorem C17_forest_height :
+  forall ops : list sop, (fheight (forest_of_ops ops) <= length ops)%nat.
+Proof. exact forest_height_le. Qed.
+
+Theorem C17_adjust_zero_pages :
+  forall b f fuel,
+    bookmarks b = map iid f ->
+    Forall (trepr (bookmark_table b)) f ->
+    NoDup (flat_map iids f) ->
+    (fheight f < fuel)%nat ->
+    exists b',
+      adjust_zero_pages fuel b = OOk b' /\
+      base b' = base b /\ bookmarks b' = bookmarks b /\ max_bookmark_id b' = max_bookmark_id b /\
+      Forall (trepr (bookmark_table b')) (map fix_tree f) /\
+      frame (bookmark_table b) (bookmark_table b') (flat_map iids f).
+Proof. exact adjust_zero_pages_ok. Qed.
+
+(* the whole pipeline: calls, adjust_zero_pages, build_outline, attach, get_toc = preorder of the
+   fixed-up forest; hypotheses as in (4) *)
+Theorem C17_reads_back_adjusted :
+  forall d ops cid rid cat fuel fuel2,
+    let b := add_all (fresh_bdoc d) ops in
+    let f := forest_of_ops (map sop_of ops) in
+    let g := map fix_tree f in
+    let m0 := d_max_id d in
+    f <> [] ->
+    max_id_bounds d ->
+    m0 + 1 + 2 * N.of_nat (fsize f) < U32_LIMIT ->
+    root_id d = Some cid ->
+    get_object_mut_id (d_objects d) cid = Some (rid, ODict cat) ->
+    no_name_trees cat ->
+    distinct_titles f -> scalar_titles f ->
+    too_deep f = false ->
+    (fheight f <= fuel)%nat ->
+    (fsize f <= fuel2)%nat ->
+    exists b1 b',
+      adjust_zero_pages (default_fuel b) b = OOk b1 /\
+      Forall (trepr (bookmark_table b1)) g /\
+      build_outline fuel b1 = OOk (Some (m0 + 1, 0), b') /\
+      let d2 := attach (base b') cid (m0 + 1, 0) in
+      (targets_are_pages d2 g -> get_toc fuel2 d2 = TOk (expected_toc d2 g) 0).
+Proof.
+  intros d ops cid rid cat fuel fuel2 b f g m0 H1 H2 H3 H4 H5 H6 H7 H8 H9 H10 H11.
+  apply (reads_back_adjusted d ops cid rid cat fuel fuel2); try assumption.
+  apply N.ltb_ge. exact H9.
+Qed.
+
+(* concrete instance: on A(0,0)[B(0,0)[b], C], D(0,7)[E] the model computes exactly [fix_tree] and the
+   adjusted forest reads back with the fixed-up page numbers *)
 Theorem C17_adjust_zero_pages_example :
   let b := add_all (fresh_bdoc ex_doc) zero_ops in
   adjust_zero_pages (default_fuel b) b = OOk zero_adjusted /\
@@ -271,6 +323,10 @@ Print Assumptions C17_reads_back_forest.
 Print Assumptions C17_reads_back_after_reload.
 Print Assumptions C17_pages_after_reload.
 Print Assumptions C17_too_deep_witness.
+Print Assumptions C17_forest_ids_distinct.
+Print Assumptions C17_forest_height.
+Print Assumptions C17_adjust_zero_pages.
+Print Assumptions C17_reads_back_adjusted.
 Print Assumptions C17_adjust_zero_pages_example.
 Print Assumptions C17_no_bookmark.
 Print Assumptions C17_example.
